@@ -43,7 +43,7 @@ t('C02', 'E1', 'complete enumeration of the finite (key kind x declared algorith
   'All 10 leaf key kinds x 17 declarations x both formats x both schemes (x 5 JWS declaration forms incl. letter-case twins of alg), each envelope produced by an independent encoder and signed validly for the declared algorithm wherever the key type permits; every remote KeySpec in a 4x10 grid against every certificate key, external signers whose KeySpec answer changes after k queries (the emitted declaration is read by the harness\'s own decoders), on a fresh envelope object and on one that already signed with a leaf matching the declared spec; every (leaf key, private key) pair of the 26-key pool for NewLocalSigner, and private keys derived from the leaf key (same RSA modulus with another exponent, same EC coordinates on another curve); Hash() and SignatureAlgorithm() tables. The space is finite and enumerated completely.',
   'ECDSA/RSA/HMAC from the Go standard library are trusted. Two exact alg members are not generated.')
 t('C07', 'E1', 'deviation-bounded enumeration (singles, pairs, triples) of header-set deviations on correctly signed envelopes from an independent encoder',
-  '16 conformant header sets plus 88 named deviations in 11 slots (incl. payload members named like JWT registered claims), tagged must-reject / recorded-only / benign; every single deviation and every cross-slot pair (thorough: triples) is encoded, validly signed and given to ParseEnvelope+Verify and +Content. Oracle: soundness on the description and on the returned value, completeness for conformant sets, Verify => Content with an identical result, also when Verify, Content, Verify, Content are called on one parsed object.',
+  '16 conformant header sets plus 97 named deviations in 11 slots (incl. payload members named like JWT registered claims, COSE tag heads written in longer-than-shortest forms), tagged must-reject / recorded-only / benign; every single deviation and every cross-slot pair (thorough: triples) is encoded, validly signed and given to ParseEnvelope+Verify and +Content. Oracle: soundness on the description and on the returned value, completeness for conformant sets, Verify => Content with an identical result, also when Verify, Content, Verify, Content are called on one parsed object.',
   'Deviations of one slot are never combined. Recorded-only deviations are not judged. Larger random sets are replaced by the exhaustive bound.')
 t('C12', 'E1+E2', 'deviation-bounded enumeration of per-source outcomes with model-independent shape rules, invalid-chain classes, and exhaustive completion orders under the seam scheduler',
   'Chains of length 1..5 (quick) / 1..6 (thorough) with distinct URLs (two responders + one point, points only, one responder + two points, no sources), every per-source outcome class with <=1/<=2 deviations, both purposes, three entry points: documented shape rules checked on every result list and every position compared with the decision-table reference; every chain-validation violation class (the same certificates checked for the other purpose first), empty and nil chain must give InvalidChainError and nil results; unusual URL spellings, a repeated distribution point, chains of 9..17 certificates under a watchdog, and chains of self-issued certificates (subject = issuer, distinct keys) that carry responders; the same chain three times through one object (the caller overwrites the second answer in between); the caller\'s certificates compared with a fresh parse afterwards; E2 enumerates all completion orders of the concurrent per-certificate checks.',
